@@ -58,6 +58,18 @@ type world struct {
 	slow     bool            // the next business statement takes a while
 }
 
+func (w *world) openSet() map[int]bool {
+	w.mu.Lock()
+	defer w.mu.Unlock()
+	m := map[int]bool{}
+	for c, o := range w.open {
+		if o {
+			m[c] = true
+		}
+	}
+	return m
+}
+
 func (w *world) setSlow(b bool) { w.mu.Lock(); w.slow = b; w.mu.Unlock() }
 func (w *world) nconnNow() int  { w.mu.Lock(); defer w.mu.Unlock(); return w.nconn }
 
